@@ -5,8 +5,9 @@ import os
 import common as C
 
 VFILES = ["props/C10.v"]
+USES_TRANSLATOR = True     # the history theorems are instantiated on the boot registry computed from the translated tables
 ASSUMPTIONS = ["rule names are ASCII, so str.casefold() is ASCII lower-casing",
-               "PARTIAL: full isolation is false on the unchanged tree (C10_refuted; two known findings); what is proved is isolation for histories that do not define a name resolving to a base-class rule (C10_partial_isolated)"]
+               "PARTIAL: full isolation is false on the unchanged tree (C10_refuted; two known findings); what is proved is behavioural isolation along any history whose steps pass explicit guards (no core-name clash, flagged definitions private, exclusions outside the observed classes): C10_partial_history_behaviour; each guard is shown necessary"]
 
 
 def run(ctx):
